@@ -1,0 +1,26 @@
+//go:build verif
+// +build verif
+
+package renamer
+
+import "sort"
+
+// Thin wrappers (no logic) used by the verification harness in /verif (C08).
+
+func VerifSlotAndCountLess(aSlot uint32, aCount uint32, bSlot uint32, bCount uint32) bool {
+	return slotAndCountArray{{slot: aSlot, count: aCount}, {slot: bSlot, count: bCount}}.Less(0, 1)
+}
+
+// sorts (slot, count) pairs with the real comparator; returns the slots in sorted order
+func VerifSortSlotAndCount(slots []uint32, counts []uint32) []uint32 {
+	arr := make(slotAndCountArray, len(slots))
+	for i := range slots {
+		arr[i] = slotAndCount{slot: slots[i], count: counts[i]}
+	}
+	sort.Sort(arr)
+	out := make([]uint32, len(arr))
+	for i, it := range arr {
+		out[i] = it.slot
+	}
+	return out
+}
